@@ -81,9 +81,29 @@ NEEDS = {
  "C18-4": ("timeCounter.next does Add(1) and then returns a separate Load()", "two concurrent opens"),
  "C19-3": ("SendVoucherResult returns early (after sending) for channels in finalization", "voucher result sent while Finalizing"),
  "C19-4": ("processUpdateVoucher drops a voucher equal to the last recorded one", "two consecutive identical vouchers / a first update repeating the opening voucher"),
+ "C01-5": ("processValidationUpdate recomputes the message's paused flag as ForcePause||RequiresFinalization while Finalizing", "final revalidation with 0 < DataLimit <= bytes transferred and RequiresFinalization false"),
+ "C01-6": ("five events incl. CompleteCleanupOnRestart switched from ToNoChange to ToJustRecord", "node went down while its channel was persisted in Completing, then restarts the channel"),
+ "C02-5": ("receiveRestartRequest answers a restart request for a channel 'in finalization' with the completion message again", "restart request for a Completed channel (responder side)"),
+ "C02-6": ("RestartDataTransferChannel re-validates (responder) before the terminated no-op guard", "API restart of a terminal channel on the responder"),
+ "C03-5": ("OnChannelCompleted(err) fires FinishTransfer instead of Error when the initiator is in ResponderCompleted", "responder's final Complete, then the initiator's own transport fails"),
+ "C03-6": ("ResumeInitiator from ResponderCompleted / ResponderFinalizing goes To(Ongoing)", "initiator paused when the Complete arrives, then resumes"),
+ "C04-5": ("restart reply's paused flag built from ForcePause instead of LeaveRequestPaused", "restart re-validated with a data limit already used up"),
+ "C04-6": ("data limit recorded only when it is lifted or raised", "accepted update / restart that LOWERS a non-zero limit"),
+ "C05-5": ("updateValidationStatus checks the responder-only role after applying the update", "initiator calls UpdateValidationStatus on its own channel"),
+ "C05-6": ("gsReqRecdHook untracks and cleans up the channel when the request is refused", "refused second graphsync request naming a live channel"),
+ "C08-5": ("getQueuedProgress seeds the progress cache from Sent instead of Queued", "process restart while queued bytes exceed sent bytes (pull responder)"),
+ "C08-6": ("progressCache.progress uses total > limit", "a report that brings the total exactly to the limit"),
+ "C09-5": ("dtChannel.close waits for gs.Cancel while holding the channel lock", "close while a graphsync callback for the channel is in progress on graphsync's loop"),
+ "C09-6": ("DataSent and DataQueued become FromAny().ToNoChange()", "a sender-side block event arrives between the ending event and CleanupComplete"),
+ "C10-5": ("CompleteCleanupOnRestart becomes ToJustRecord", "restart of a channel persisted in a cleanup status"),
+ "C10-6": ("precedence slip: isPush && (IsNew && Accepted || IsRestart)", "push restart that re-validation rejects"),
+ "C14-5": ("Monitor.addChannel returns the existing monitored channel on a duplicate add", "monitor-driven restart whose restart request cannot be sent"),
+ "C14-6": ("resetConsecutiveRestarts ignores data events while a restart is in progress", "data progress arriving during the restart backoff"),
+ "C16-5": ("gsDataRequestRcvd keeps the old current request unless the requester cancelled it", "second incoming request on a channel without a cancel in between"),
+ "C16-6": ("outgoing block hooks filter on BlockSize()==0 instead of BlockSizeOnWire()==0", "restart-skipped blocks (size > 0, nothing on the wire)"),
  "C19-2": ("NewVoucher restricted to a hand-built status list that omits ResponderFinalizingTransferFinished", "SendVoucher while the initiator is in ResponderFinalizingTransferFinished"),
 }
-NOT_CAUGHT={"C17-3":"needs the asynchronous notification queue of go-statemachine (a subscriber slower than 5 s lets the next notification overtake); the synchronous model group delivers notifications inside Send, so ordering under slow subscribers is declared outside the claim"}
+NOT_CAUGHT={"C09-6":"the re-run of the cleanup entry function needs an event to arrive in the window between entering Cancelling/Failing/Completing and CleanupComplete, which only exists in the asynchronous go-statemachine queue (the synchronous model finishes the cleanup before the next event); the unchanged tree has the same re-entry for the events that are already FromAny().ToNoChange() (DataReceived, Disconnected, ...), so this window is declared outside the claim under C09","C17-3":"needs the asynchronous notification queue of go-statemachine (a subscriber slower than 5 s lets the next notification overtake); the synchronous model group delivers notifications inside Send, so ordering under slow subscribers is declared outside the claim"}
 os.makedirs(DST, exist_ok=True)
 n=0
 for key,(what,needs) in sorted(NEEDS.items()):
@@ -115,7 +135,7 @@ for key,(what,needs) in sorted(NEEDS.items()):
     if key=="C20-2":
         meta["demo_needs_race_detector"]=True
         meta["confirmed_by_me"]["commands"]=[c.replace("go test -vet=off","go test -race -vet=off") if "demo" in c else c for c in meta["confirmed_by_me"]["commands"]]
-    meta["round"]=1 if int(k)<=2 or p=="C20" else 2
+    meta["round"]=1 if int(k)<=2 or p=="C20" else (2 if int(k)<=4 else 3)
     json.dump(meta,open(f"{out}/meta.json","w"),indent=1)
     n+=1
 print("kept",n)
